@@ -42,7 +42,7 @@ var specC01Model = Register(&Spec[VerPair]{
 })
 
 func TestC01_Model(t *testing.T) {
-	specC01Model.Run(t, genVerPair, 30000, 400000)
+	specC01Model.Run(t, genVerPair, 100000, 600000)
 }
 
 // ------------------------------------------------------------------ C01/parsed
@@ -128,7 +128,7 @@ var specC01Parsed = Register(&Spec[ParsedPair]{
 })
 
 func TestC01_Parsed(t *testing.T) {
-	specC01Parsed.Run(t, genParsedPair, 15000, 200000)
+	specC01Parsed.Run(t, genParsedPair, 50000, 300000)
 }
 
 // ------------------------------------------------------------------ C01/dpkg
